@@ -34,6 +34,8 @@ type c12 struct {
 	// gdev / gtg: a gNMI device on loopback and the production gNMI target connected to it (forms gnmi-*)
 	gdev *fixture.GNMIDevice
 	gtg  target.Target
+	// wires: production gNMI targets (proto, json, json_ietf) with a gNMI device each; every tree is handed to them too
+	wires []fixture.Forwarder
 }
 
 func init() { core.Register(&c12{}) }
@@ -112,6 +114,13 @@ func (c *c12) Setup(w *core.Worker) error {
 	}
 	c.h = &hist{env: env, owners: []string{"oa"}}
 	c.gd = &c14{h: c.h}
+	for _, enc := range []string{"proto", "json", "json_ietf"} {
+		f, err := gnmiForwarder(enc)
+		if err != nil {
+			return fmt.Errorf("gNMI wire fixture (%s): %v", enc, err)
+		}
+		c.wires = append(c.wires, f)
+	}
 	if c.gdev, err = fixture.NewGNMIDevice(); err != nil {
 		return fmt.Errorf("gNMI device: %v", err)
 	}
@@ -505,6 +514,7 @@ func (c *c12) RunCase(w *core.Worker, idx int, seed uint64, res *core.CaseResult
 	c.h.pool = nil
 	run := c.h.start(rng, res, false, true)
 	defer run.close()
+	run.ds.Dev.Forward = c.wires
 	ctx := context.Background()
 	req := &sdcpb.TransactionIntent{Intent: "oa", Priority: 10, Update: []*sdcpb.Update{c.mkUpdate(cs.leaf, cs.val, cs.form)}}
 	if cs.leaf == "lr" {
@@ -574,6 +584,22 @@ func (c *c12) RunCase(w *core.Worker, idx int, seed uint64, res *core.CaseResult
 	}
 	if !found {
 		res.Violate("C12/leaf-not-sent/"+tkey, "%s: no update for %s at the device: %s", desc, leafPath, fixture.PayloadKey(rec.Updates, rec.Deletes))
+	}
+	// what a gNMI device at the far end of the production gNMI target holds, in each gNMI encoding
+	for _, wr := range rec.Wire {
+		if wr.Err != nil {
+			res.Violate(fmt.Sprintf("C12/%s-set-fails/%s", wr.Name, tkey), "%s: %v (on the wire: %s)", desc, wr.Err, wr.Desc)
+			continue
+		}
+		lex, ok := wr.After[leafPath]
+		if !ok {
+			res.Violate(fmt.Sprintf("C12/%s-device-lacks-the-leaf/%s", wr.Name, tkey), "%s: on the wire: %s", desc, wr.Desc)
+			continue
+		}
+		if t.Kind == "empty" && lex == "true" {
+			lex = "EMPTY" // gNMI carries a set leaf of type empty as boolean true
+		}
+		judge(wr.Name+"-at-device", lex)
 	}
 	if rec.Views != nil {
 		for _, e := range rec.Views.Errors {
